@@ -21,13 +21,20 @@
 (* recorded for epoch e is the one TrainCtl!Update puts into row e; with    *)
 (* BestTrain the best epoch is taken by the training metric                 *)
 (* (update_for_epoch(..., best_is_train=True)).                             *)
+(* A model file also holds a SET OF ENTRIES: the parameters that were       *)
+(* written.  The model handed to the controller may be a wrapper            *)
+(* (TrainCtlModel); a checkpoint gives back "exactly the parameters that    *)
+(* were saved" only if its entries are the parameters of the live model -   *)
+(* the process started after the crash constructs the same kind of model    *)
+(* and loads into it.                                                       *)
 (***************************************************************************)
-EXTENDS Naturals, Integers, Sequences, FiniteSets, TLC, SequencesExt, Json
+EXTENDS Naturals, Integers, Sequences, FiniteSets, TLC, SequencesExt, Json, TrainCtlModel
 
 CONSTANTS EpochFmt,   \* TRUE: file names contain the epoch; FALSE: one fixed name per kind
           KeepLB,     \* keep_last_and_best_only
           BestTrain,  \* best_is_train: "best" = lowest TRAINING metric
           Params,     \* TrainCtl parameter record (learning-rate reductions)
+          ModelKind,  \* what is handed to the controller as the model (TrainCtlModel!ModelKinds)
           MaxE,       \* epochs per run
           MaxCrash,   \* crashes per behaviour
           Levels      \* validation metric values
@@ -37,7 +44,8 @@ INF == 1000
 VARIABLES M,        \* 1..MaxE -> validation metric of each epoch (fixed per behaviour)
           R,        \* the rows TrainCtl records for M (fixed per behaviour): R[e].lrk, R[e].trn
           hist,     \* history file: sequence of recorded validation metrics
-          fs,       \* checkpoint files: name -> [e |-> epoch whose state the file holds, k |-> rate it carries]
+          fs,       \* checkpoint files: name -> [e |-> epoch whose state the file holds, k |-> rate it carries,
+                    \*                             keys |-> entries of the model's state dict in it]
           tmps,     \* temporary files: id -> content (Nothing = nothing written yet)
           pc,       \* program point inside the update ("idle" between updates)
           plan,     \* the in-flight update (lost on crash)
@@ -72,9 +80,11 @@ Full == [e \in 1..MaxE |-> M[e]]
 Put(f, n, c) == [x \in DOMAIN f \cup {n} |-> IF x = n THEN c ELSE f[x]]
 Drop(f, n) == [x \in DOMAIN f \ {n} |-> f[x]]
 NoPlan == [e |-> 0]
-Nothing == [e |-> 0, k |-> 0]
-\* what a state dict saved for epoch e should hold
-Content(kind, e) == [e |-> e, k |-> IF kind = "o" THEN LrkOf(e) ELSE 0]
+Nothing == [e |-> 0, k |-> 0, keys |-> {}]
+\* what a state dict saved for epoch e should hold: e's parameters - every parameter of the live model, a wrapper's
+\* own included - or e's optimizer state carrying the rate recorded for e
+Content(kind, e) == [e |-> e, k |-> IF kind = "o" THEN LrkOf(e) ELSE 0,
+                     keys |-> IF kind = "m" THEN LiveKeys(ModelKind) ELSE {}]
 
 Init == /\ M \in [1..MaxE -> Levels]
         /\ R = RowsFor(M)
@@ -119,7 +129,9 @@ MkTmp(here, id, there) == /\ pc = here
                           /\ UNCHANGED <<M, R, optk, hist, fs, plan, crashes, refused>>
 \* torch.save(state_dict): the model's parameters / the optimizer's state WITH the rate it holds now
 WrTmp(here, id, there) == /\ pc = here
-                          /\ tmps' = Put(tmps, id, [e |-> plan.e, k |-> IF id[1] = "o" THEN optk ELSE 0])
+                          /\ tmps' = Put(tmps, id, [e |-> plan.e, k |-> IF id[1] = "o" THEN optk ELSE 0,
+                                                    \* model.state_dict() of the model that was handed in
+                                                    keys |-> IF id[1] = "m" THEN LiveKeys(ModelKind) ELSE {}])
                           /\ pc' = there
                           /\ UNCHANGED <<M, R, optk, hist, fs, plan, crashes, refused>>
 \* fresh tmp ids: (epoch, kind, attempt) -- an earlier crashed attempt may have left one behind
@@ -184,5 +196,5 @@ Export == (pc = "idle" /\ hist = <<>> /\ crashes = 0) =>
                    best |-> [e \in 1..MaxE |-> Best(SubSeq(Full, 1, e))]])
 \* the live optimizer holds the rate recorded for the last epoch whenever training may go on from here
 LiveRate == (pc = "idle" /\ (LastE(hist) = 0 \/ Loadable(LastE(hist)))) => optk = LrkOf(LastE(hist))
-TypeOK == pc \in {"idle", "append1", "tmpM", "wrM", "tmpO", "wrO", "replM", "replO", "append2", "clean"}
+TypeOK == ModelKind \in ModelKinds /\ pc \in {"idle", "append1", "tmpM", "wrM", "tmpO", "wrO", "replM", "replO", "append2", "clean"}
 =============================================================================
